@@ -201,7 +201,7 @@ CHECKS['C11'] = {
              "any reply (never Ok); a register frame is either answered Ok with the socket in the queue of a router of exactly the messaging pattern asked for, or refused with INVALID_TOPIC_NAME / "
              "TOPIC_KIND_MISMATCH and nothing changed; never Ok-then-abandoned, never a panic, the lock always released; for every sequence of registrations the kind of an existing topic never "
              "changes and a registration that fits it is still served afterwards; the client library reports every first reply other than Ok as an error carrying the server's code. "
-             "PROVED on the router LTS: no sequence of frames of any kind from requestors/repliers/publishers in any schedule makes a router panic. PROVED on the req/rep router LTS: every socket taken from the registration channel is still queued or was given a role (bound, refused, keyed) - none is dropped; on implementation histories obs_c11_replier_answered demands that every replier taken was served, told with the error frame, or failed. TIED to the code: raw peers open streams with all eight "
+             "PROVED on the router LTS: no sequence of frames of any kind from requestors/repliers/publishers in any schedule makes a router panic. PROVED on the req/rep router LTS: every socket taken from the registration channel is still queued or was given a role (bound, refused, keyed) - none is dropped, nobody is given two roles, and they are exactly the sockets sent on the channel in the trace; the pub/sub router drops no subscriber registration either (queued or adopted into the fan-out); on implementation histories obs_c11_replier_answered demands that every replier taken was served, told with the error frame, or failed. TIED to the code: raw peers open streams with all eight "
              "first-frame kinds on valid/invalid/reserved names in both messaging patterns and send unexpected and oversized-once-tagged frames mid-stream; the first reply of every stream is compared "
              "with the model's, and afterwards real clients must get service on every acknowledged topic and on a fresh one; the router simulations feed arbitrary frame kinds."),
     'note': "Partial where the runtime decides: QUIC stream closure, tokio::spawn and the wire encoding of replies are observed, not modelled; the __cloud feature branch is off and skipped. Reading adopted: a first frame without a topic may be closed with no reply.",
